@@ -4,7 +4,7 @@ CONSTANTS
   Algs = {"ES256", "EdDSA"}
   ClaimIds = {"cA", "cB", "cBad"}
   InvalidIds = {"cBad"}
-INVARIANTS Binding NoForgery FailedOpNoToken FailedSignThenVerifyFails GateNeverPassesInvalid TokenIsEnvelope GoodSignAlwaysSucceeds TwoSignsTwoTokens
-PROPERTIES GoodSignVerifies
+INVARIANTS Binding NoForgery GoodSignAlwaysSucceeds TwoSignsTwoTokens
+PROPERTIES GoodSignVerifies EveryStepPost
 VIEW EView
 CHECK_DEADLOCK FALSE
